@@ -35,7 +35,13 @@ def run(ctx):
         ctx.bridge('translator: failonerror if-chains of %d exception handlers and the config defaults of their views' % info['sites'], True)
     except Exception as e:   # noqa
         ctx.bridge('translator: failonerror ladders extracted', False, repr(e))
-    ctx.prove(['PetlProofs.Props.C19', 'PetlProofs.Props.C19Ladder'], REQUIRED)
+    from translators import fingerprints as _fp
+    try:
+        _fpi = _fp.generate()
+        ctx.bridge('translator: fingerprints of the petl functions the hand-written models mirror (%d bodies)' % _fpi['names'], True)
+    except Exception as e:   # noqa
+        ctx.bridge('translator: source fingerprints extracted', False, repr(e))
+    ctx.prove(['PetlProofs.Props.C19', 'PetlProofs.Props.C19Ladder', 'PetlProofs.Snapshot.C19'], REQUIRED + ['Petl.Snapshot.C19_sources_as_validated'])
     rng = ctx.rng
     maxn = 6 if ctx.thorough() else 4
     jobs = []
